@@ -176,10 +176,84 @@ func runPair(p pairT, seed int) string {
 	return problem
 }
 
+// stopStorm races the calls that END a session against each other on many fresh handlers: two goroutines
+// released by a barrier call Stop / Stop, or Stop / Accept(abort notice). The window between "is it over?"
+// and "end it" is tiny, so one live session is not enough to hit it.
+func stopStorm(handler string, n int) string {
+	problem := ""
+	var mu sync.Mutex
+	note := func(s string) {
+		mu.Lock()
+		if problem == "" {
+			problem = s
+		}
+		mu.Unlock()
+	}
+	for k := 0; k < n && problem == ""; k++ {
+		var sess *protos.Session
+		var focus, peer party.ID = "a", "b"
+		if handler == "TwoPartyHandler" {
+			sess = protos.DoernerKeygen("a", "b", []byte("storm"))
+			if k%2 == 1 {
+				focus, peer = "b", "a"
+			}
+		} else {
+			sess = protos.Xor([]party.ID{"a", "b", "c"}, []byte("storm"))
+		}
+		h, err := sess.Makers[focus]()
+		if err != nil {
+			return "construct: " + err.Error()
+		}
+		hp, err := sess.Makers[peer]()
+		if err != nil {
+			return "construct: " + err.Error()
+		}
+		// an abort notice of the peer
+		hp.Stop()
+		var notice *protocol.Message
+		for m := range hp.Listen() {
+			if m.RoundNumber == 0 {
+				notice = m
+			}
+		}
+		go func() {
+			for range h.Listen() {
+			}
+		}()
+		start := make(chan struct{})
+		var wg sync.WaitGroup
+		for g := 0; g < 3; g++ {
+			g := g
+			wg.Add(1)
+			go func() {
+				defer wg.Done()
+				defer func() {
+					if r := recover(); r != nil {
+						note(fmt.Sprintf("panic: %v", r))
+					}
+				}()
+				<-start
+				if g == 2 && notice != nil && k%3 == 0 {
+					h.Accept(notice)
+				} else {
+					h.Stop()
+				}
+			}()
+		}
+		close(start)
+		wg.Wait()
+		if _, err := h.Result(); err == nil || strings.Contains(err.Error(), "not finished") {
+			note("Stop was called but the session did not end with an error")
+		}
+	}
+	return problem
+}
+
 func main() {
 	in := flag.String("pairs", "", "JSON list of pairs")
 	out := flag.String("out", "", "summary")
 	seed := flag.Int("seed", 0, "seed")
+	storm := flag.Int("storm", 1500, "fresh handlers per handler type for the Stop storm")
 	flag.Parse()
 	var pairs []pairT
 	raw, err := os.ReadFile(*in)
@@ -196,6 +270,12 @@ func main() {
 		fmt.Fprintf(os.Stderr, "PAIR-BEGIN %s %s %s\n", p.Handler, p.A, p.B)
 		results = append(results, res{p, runPair(p, *seed+i)})
 		fmt.Fprintf(os.Stderr, "PAIR-END %s %s %s\n", p.Handler, p.A, p.B)
+	}
+	for _, hname := range []string{"MultiHandler", "TwoPartyHandler"} {
+		p := pairT{Handler: hname, A: "Stop", B: "Stop/Accept(notice) storm"}
+		fmt.Fprintf(os.Stderr, "PAIR-BEGIN %s %s %s\n", p.Handler, "Stop", "storm")
+		results = append(results, res{p, stopStorm(hname, *storm)})
+		fmt.Fprintf(os.Stderr, "PAIR-END %s %s %s\n", p.Handler, "Stop", "storm")
 	}
 	b, _ := json.MarshalIndent(results, "", " ")
 	os.WriteFile(*out, b, 0o644)
